@@ -69,6 +69,18 @@ pub fn req(sock: &Path, method: &str, target: &str, headers: &[(&str, Vec<u8>)],
         r.extend_from_slice(v);
         r.extend_from_slice(b"\r\n");
     }
+    // `Transfer-Encoding: chunked` among the headers: the body travels in chunks (what the project's own client sends),
+    // an empty body as the terminating chunk alone
+    if headers.iter().any(|(k, _)| k.eq_ignore_ascii_case("transfer-encoding")) {
+        r.extend_from_slice(b"\r\n");
+        for piece in body.chunks(3000) {
+            r.extend_from_slice(format!("{:x}\r\n", piece.len()).as_bytes());
+            r.extend_from_slice(piece);
+            r.extend_from_slice(b"\r\n");
+        }
+        r.extend_from_slice(b"0\r\n\r\n");
+        return raw(sock, &r);
+    }
     if !body.is_empty() || method == "POST" {
         r.extend_from_slice(format!("Content-Length: {}\r\n", body.len()).as_bytes());
     }
@@ -141,6 +153,10 @@ pub fn exec(sock: &Path, op: &str, rq: &Value, nth: u64) -> Option<Value> {
                 .as_str()
                 .map(|b| base64::prelude::BASE64_STANDARD.decode(b).unwrap())
                 .unwrap_or_default();
+            // the body with a length, or in chunks (an absent body: `Content-Length: 0`, or the terminating chunk alone)
+            if nth % 3 == 0 {
+                headers.push(("Transfer-Encoding", b"chunked".to_vec()));
+            }
             let r = req(sock, "POST", &target, &headers, &body);
             if r.status == 200 {
                 match serde_json::from_slice::<Value>(&r.body) {
@@ -232,7 +248,7 @@ pub const BAD_CLASSES: &[&str] = &[
     "unknown_ctx_append", "xsctx_outside_zero", "ttl_head0", "ttl_time_word", "ttl_bogus", "ttl_head_neg",
     "ttl_time_overflow", "ttl_head_overflow", "meta_bad_b64", "meta_bad_utf8", "meta_bad_json", "meta_non_ascii",
     "get_bad_id", "get_short_id", "delete_bad_id", "head_bad_ctx", "cas_empty", "cas_bad_hash", "cas_bad_digest",
-    "cas_absent", "cas_unpadded", "cas_unpadded_present", "cas_short_digest", "cas_sha512_absent", "cas_sha1", "cas_empty_digest",
+    "cas_absent", "cas_empty_chunked", "cas_unpadded", "cas_unpadded_present", "cas_short_digest", "cas_sha512_absent", "cas_sha1", "cas_empty_digest",
     "cas_two_hashes", "cas_urlsafe_digest", "cas_trailing_slash", "import_not_json", "import_not_frame", "import_nul_topic", "put_other", "patch_root",
     "get_unknown_id", "delete_unknown_id", "head_unknown_topic",
 ];
@@ -265,6 +281,7 @@ pub fn bad(sock: &Path, class: &str) -> (Resp, &'static str) {
         "delete_bad_id" => (req(sock, "DELETE", "/not-an-id", &[], &[]), "4xx"),
         "head_bad_ctx" => (req(sock, "GET", "/head/t?context=zzz", &[], &[]), "4xx"),
         "cas_empty" => (req(sock, "POST", "/cas", &[], &[]), "4xx"),
+        "cas_empty_chunked" => (req(sock, "POST", "/cas", &[("Transfer-Encoding", b"chunked".to_vec())], &[]), "4xx"),
         "cas_bad_hash" => (req(sock, "GET", "/cas/notahash", &[], &[]), "4xx"),
         "cas_bad_digest" => (req(sock, "GET", "/cas/sha256-!!!!", &[], &[]), "4xx"),
         "cas_absent" => (
